@@ -72,7 +72,7 @@ def gen(rng, i, tier):
         c["n"], c["V"] = n, [sorted(set(v)) for v in V]
         c["log"] = rng.random() < 0.5
         if rng.random() < 0.4:
-            w = [rng.choice([F(1), F(1, 2), F(3, 4)]) for _ in range(NV)]
+            w = [rng.choice([F(1), F(1, 2), F(3, 4), F(0)]) for _ in range(NV)]       # a set may cost nothing
             w[rng.randrange(NV)] = F(1)
             c["weights"] = [[x.numerator, x.denominator] for x in w]
         else:
@@ -147,8 +147,36 @@ def run_impl(c):
     out = {"kind": type(M).__name__, "terms": C.jterms(C.enc_terms(M)), "nvars": P.num_binary_variables, "checks": []}
     if c["cls"] == "GraphPartitioning":
         out["v2i"] = [[C.enc(v), i] for v, i in P._vertex_to_index.items()]
-    out["checks"] = check(c, P, M)
+    out["checks"] = check(c, P, M) + check_other_form(c, P, M)
     return out
+
+
+def check_other_form(c, P, M):
+    """the formulation in the other basis, asked for with the same keyword weights: same function under 0 <-> +1, 1 <-> -1"""
+    kw = weights_kw(c)
+    spin_native = c["cls"] in ("NumberPartitioning", "GraphPartitioning", "AlternatingSectorsChain")
+    O = P.to_qubo(**kw) if spin_native else P.to_quso(**kw)
+    n = P.num_binary_variables
+    if n > 10:
+        return []
+    mi = [(k, C.toF(val)) for k, val in M.items()]
+    oi = [(k, C.toF(val)) for k, val in O.items()]
+
+    def ev(items, x):
+        tot = F(0)
+        for k, val in items:
+            p = 1
+            for i in k:
+                p *= x[i]
+            tot += val * p
+        return tot
+    for bits in itertools.product((0, 1), repeat=n):
+        spins = [1 - 2 * b for b in bits]
+        a, b_ = (ev(mi, spins), ev(oi, bits)) if spin_native else (ev(mi, bits), ev(oi, spins))
+        if a != b_:
+            return ["%s.%s(%s) differs from %s at %r: %s vs %s" % (c["cls"], "to_qubo" if spin_native else "to_quso",
+                    ", ".join("%s=%s" % kv for kv in kw.items()), "to_quso" if spin_native else "to_qubo", bits, b_, a)]
+    return []
 
 
 # ------------------------------------------------------------------------------ direct combinatorial solvers ----
